@@ -417,15 +417,16 @@ Definition pyres_code {A} (r : pyres A) : Z :=
   match r with Ok _ => 0 | ValueError => 1 | IndexError => 2 | TypeError => 3 end.
 
 (* verdict on one exported array against the element list the model holds:
-   0 agree, 2 not well-formed, 3 a missing slot spans values, 4 decode differs,
-   5 isna differs *)
+   0 agree, 2 not well-formed, 4 decode differs, 5 isna differs, 3 everything
+   agrees but a missing slot spans values (a premise of the representation
+   independence theorems, not an observable: the harness counts it) *)
 Definition check_repr (r : repr) (l : list (option elem)) : Z :=
   match r with
   | RList a =>
       if negb (wf_listarr a) then 2
-      else if negb (nulls_empty a) then 3
       else if negb (list_eqb' oelem_eqb (decode_nested a) l) then 4
       else if negb (list_eqb' Bool.eqb (la_isna a) (isna l)) then 5
+      else if negb (nulls_empty a) then 3
       else 0
   | RFix a =>
       if negb (wf_fixarr a) then 2
